@@ -15,7 +15,8 @@ events(any fragmentation without timeouts), where a fragmentation may contain re
 nothing (the input callback woken without new bytes: resize pipe, gpm, get_input() polling), (4b) with
 timeouts: the pending bytes are decoded as they stand, i.e. as if the stream ended at that cut,
 (5) composition / pass-through: a self-delimiting item decodes to the same events whatever follows
-it.  After every run of the input callback: bytes accounted for are a prefix of what was fed, and
+it; an ESC in front of a self-delimiting item X gives 'esc' + events(X), or X's first key with 'meta '
+in front when that key has no meta modifier yet (independent of urwid's own decode of ESC X).  After every run of the input callback: bytes accounted for are a prefix of what was fed, and
 bytes still pending are covered by an armed completion alarm.
 """
 from __future__ import annotations
@@ -53,7 +54,10 @@ RULE = (
     "encoding in utf-8 / euc-jp / iso8859-1. Exhaustive sweeps: every input_sequences entry x 3 "
     "encodings x every single cut x (plain / timeout / wake-up without input / both); every "
     "independently written xterm form likewise; X10 mouse with every value of each of its three bytes; "
-    "SGR mouse button codes 0..127; every UTF-8-shaped sequence (lead 0xC0-0xF7 x all 64 second bytes x "
+    "SGR mouse button codes 0..127; an ESC byte, and two, in front of every input_sequences entry, every "
+    "xterm form with every modifier parameter, an X10 and an SGR report per modifier set, cursor position "
+    "reports, a character of every class and every C0 / printable byte (whole, cut after the ESC with and "
+    "without timeout / wake-up, cut inside the sequence); every UTF-8-shaped sequence (lead 0xC0-0xF7 x all 64 second bytes x "
     "extreme later bytes; alone with every single cut, between printable bytes, doubled before a key "
     "sequence); every two-byte character of gbk / big5 / uhc / euc-jp. Non-trivial: the stream contains "
     "a multi-byte item and at least one cut of a case fragmentation falls strictly inside it. sync: the "
@@ -76,8 +80,20 @@ ASSUMPTIONS = [
     "spelling is used: 'shift ', 'meta ' (Alt), 'ctrl ' in that order, keypad digits/operators as the "
     "character, 'page up'/'page down'",
     "mouse reports outside the protocol-defined / urwid-documented domain (X10 button byte < 32 or "
-    "with bit 128, wheel with low bits 2/3, motion without button, coordinate bytes < 33, SGR b >= 128 "
-    "or x,y == 0) are only required to decode to one mouse tuple; nothing is asserted about its name",
+    "with bit 128, wheel with low bits 2/3, motion without button, SGR b >= 128) are only required to "
+    "decode to one mouse tuple, nothing is asserted about its name; nothing is asserted about an SGR "
+    "coordinate sent as 0 (the protocol is 1-based)",
+    "X10 coordinates: one byte = (1-based position + 32) mod 256, so bytes 33..255 are columns/rows "
+    "0..222 and bytes 0..32 are the wrapped encoding of 223..255 - the reading escape.py documents "
+    "('supports 0-255') and the only one compatible with userinput.rst ('coordinates starting from "
+    "(0, 0)': never negative); asserted for all 256 values of each coordinate byte",
+    "ESC + X, X self-delimiting and not starting with '[' / 'O' (so that ESC X.. is no table sequence): the "
+    "accepted event lists are 'esc' followed by the events of X (the ESC is a byte that forms no known "
+    "sequence and X is decoded undisturbed), or - only if the first event of X is a key name that does "
+    "not already carry the meta modifier - the events of X with 'meta ' put in front of the first one "
+    "(userinput.rst: ALT+J = 'meta j'; a documented name has each modifier word at most once). Which of "
+    "the two urwid chooses, and the order of 'meta' relative to other modifier words, is not asserted. "
+    "Applied recursively to ESC ESC X",
     "ESC[1;mR with m in 1..8 is ambiguous (modified F3 / cursor position row 1): either decode accepted",
     "xterm forms urwid's table does not know (modified Insert CSI 2;m~, SS3 M/l/X/E) are generated but "
     "only oracles 1, 2, 4 apply to them (the statement speaks of *recognised* sequences)",
@@ -309,8 +325,11 @@ def _mouse_prefix(b):
 
 
 def x10_spec(cb, cx, cy):
-    x = cx - 33 if cx >= 33 else None
-    y = cy - 33 if cy >= 33 else None
+    # One byte per coordinate: 1-based position + 32, modulo 256.  Bytes 33..255 are columns/rows 0..222;
+    # on a terminal wider/taller than that the byte wraps, so 0..32 stand for 223..255 (escape.py
+    # documents "supports 0-255"; userinput.rst: coordinates start from (0, 0), i.e. are never negative).
+    x = (cx - 33) % 256
+    y = (cy - 33) % 256
     b = cb - 32
     low, motion, wheel = b & 3, b & 32, b & 64
     if b < 0 or b >= 128 or (wheel and low >= 2) or (wheel and motion) or (motion and low == 3):
@@ -337,10 +356,39 @@ _SGR_ANY = re.compile(rb"\x1b\[<([^Mm]*)[Mm]", re.S)
 
 
 class Item:
-    __slots__ = ("kind", "data", "complete", "spec", "strong")
+    """spec: the expected events (one spec each) or None; alts: the accepted event lists - [spec] for
+    an ordinary item, several for an ESC-prefixed one (see esc_alts), None = no independent reading."""
 
-    def __init__(self, kind, data, complete=False, spec=None, strong=False):
+    __slots__ = ("kind", "data", "complete", "spec", "strong", "alts")
+
+    def __init__(self, kind, data, complete=False, spec=None, strong=False, alts=None):
         self.kind, self.data, self.complete, self.spec, self.strong = kind, bytes(data), complete, spec, strong
+        self.alts = alts if alts is not None else ([spec] if spec is not None else None)
+
+
+def _has_meta(name):
+    return "meta" in name.split(" ")[:-1]
+
+
+def esc_alts(alts):
+    """Accepted event lists of ESC + X, from those of a self-delimiting X that does not continue a
+    table sequence.  ESC ESC.. / ESC + anything but '[' 'O' is no table sequence, so the statement
+    allows two readings and nothing else: (a) the ESC is a byte that forms no known sequence - the event
+    'esc' - and X follows undisturbed; (b) urwid's documented ESC+key form of Alt+key ('meta j'): the
+    first event of X, if it is a key name, is reported with 'meta ' in front.  (b) is not available when
+    that first event is no key (mouse report, cursor position) or already carries the meta modifier - a
+    documented name has each of 'shift ', 'meta ', 'ctrl ' at most once.  Where the spelling of the key
+    itself is not asserted, (b) only requires the 'meta ' prefix."""
+    out = []
+    for alt in alts:
+        first = alt[0]
+        if first[0] == "eq" and isinstance(first[1], str):
+            if not _has_meta(first[1]):
+                out.append([("eq", "meta " + first[1]), *alt[1:]])
+        elif first[0] in ("str", "any"):
+            out.append([("prefix", "meta "), *alt[1:]])
+        out.append([("eq", "esc"), *alt])
+    return out
 
 
 def build_item(it, mode) -> Item:
@@ -419,8 +467,10 @@ def build_item(it, mode) -> Item:
     if k == "meta":
         inner = build_item(it[1], mode)
         complete = inner.complete and inner.data[:1] not in (b"[", b"O", b"")
-        # spelling of ESC + sequence is not documented: metamorphic composition only (spec None)
-        return Item("meta+" + inner.kind, b"\x1b" + inner.data, complete, None)
+        # ESC + X: 'esc' then X, or the first key of X with 'meta ' in front (esc_alts); an X without an
+        # independent reading of its own leaves only the metamorphic composition oracle
+        alts = esc_alts(inner.alts) if complete and inner.alts is not None else None
+        return Item("meta+" + inner.kind, b"\x1b" + inner.data, complete, None, alts is not None, alts)
     if k == "trunc":
         inner = build_item(it[1], mode)
         if len(inner.data) < 2:
@@ -457,6 +507,8 @@ def _match(spec, ev):
         return type(ev) is type(spec[1]) and ev == spec[1]
     if t == "str":
         return isinstance(ev, str)
+    if t == "prefix":
+        return isinstance(ev, str) and ev.startswith(spec[1]) and len(ev) > len(spec[1])
     if t == "any":
         return True
     if t == "mouse":
@@ -477,6 +529,8 @@ def _show_spec(spec):
         return repr(spec[1])
     if spec[0] == "mouse":
         return "(" + ", ".join("*" if v is None else repr(v) for v in spec[1:]) + ")"
+    if spec[0] == "prefix":
+        return f"<{spec[1]!r} + key>"
     return "<one event>" if spec[0] == "any" else "<one string>"
 
 
@@ -512,15 +566,21 @@ def check_stream(case):
     if k:
         pos = 0
         for it in items[:k]:
-            spec = it.spec if it.spec is not None else [("eq", e) for e in whole(it.data)]
-            got = ev_whole[pos : pos + len(spec)]
-            if len(got) != len(spec) or not all(_match(s, e) for s, e in zip(spec, got)):
-                clause = ("decode:" if it.spec is not None else "composition:") + it.kind.split("+")[0]
+            alts = it.alts if it.alts is not None else [[("eq", e) for e in whole(it.data)]]
+            # no accepted list is a prefix of another one (they differ in an 'eq' / 'meta ' event), so
+            # at most one matches
+            spec = next(
+                (a for a in alts if len(ev_whole) - pos >= len(a) and all(_match(s, e) for s, e in zip(a, ev_whole[pos:]))),
+                None,
+            )
+            if spec is None:
+                clause = ("decode:" if it.alts is not None else "composition:") + it.kind.split("+")[0]
+                width = max(len(a) for a in alts)
                 raise Violation(
                     clause,
                     f"[{case['enc']}] item {it.data!r} ({it.kind}) inside {stream!r}: expected "
-                    f"[{', '.join(_show_spec(s) for s in spec)}], events at that place are {got!r} "
-                    f"(all events {ev_whole!r})",
+                    + " or ".join(f"[{', '.join(_show_spec(s) for s in a)}]" for a in alts)
+                    + f", events at that place are {ev_whole[pos : pos + width]!r} (all events {ev_whole!r})",
                 )
             pos += len(spec)
         rest = b"".join(i.data for i in items[k:])
@@ -845,6 +905,10 @@ def classify(case):
             out.add("item:" + it.kind.split("+")[0] + "+*")
         if it.kind == "x10" or it.kind == "sgr":
             out.add(f"{it.kind}:{'protocol-domain' if it.spec[0][1] is not None else 'outside-domain'}")
+        if it.kind == "x10" and (it.data[4] < 33 or it.data[5] < 33):
+            out.add("x10:coordinate-byte-wrapped(223..255)")
+        if it.kind.startswith("meta+"):
+            out.add("meta:independent-reading" if it.alts is not None else "meta:metamorphic-only")
     n = len(stream)
     flags = 0
     for fr in case.get("frags", ()):
@@ -950,6 +1014,33 @@ def utf8_shape_cases():
         if i % 16 == 0:
             yield {"enc": "iso8859-1", "items": [["u8x", txt], ["raw", "y"]], "frags": [[[1, 2]]]}
             yield {"enc": "euc-jp", "items": [["u8x", txt], ["raw", "y"]], "frags": [[[1, 2]]]}
+
+
+def esc_prefix_cases():
+    """an ESC byte in front of every recognised report: every input_sequences entry and every independently
+    written xterm form (all modifier parameters), an X10 / SGR mouse report per modifier combination, a
+    cursor position report, a character of every class and every C0 byte; then a second ESC in front of
+    that.  Whole, cut after the first ESC (plain / wake-up without input / timeout), inside the sequence,
+    and followed by a printable byte."""
+    inner = [["tab", i] for i, (_s, name) in enumerate(TABLE) if name not in ("mouse", "sgrmouse")]
+    for m in range(2, 9):
+        inner += [["csi1", m, x] for x in sorted(CSI1_KEYS)]
+        inner += [["csit", n, m] for n in sorted(CSIT_KEYS)]
+        inner += [["ss3m", m, x] for x in sorted(SS3M_KEYS)]
+    inner += [["ss3", x] for x in sorted(SS3_KEYS)]
+    for mods in range(8):
+        inner += [["x10", 32 + 4 * mods + low, 40, 50] for low in (0, 3)]
+        inner += [["sgr", 4 * mods, 12, 7, final] for final in "Mm"]
+    inner += [["cpr", 24, 80], ["cpr", 1, 3]]
+    inner += [["u8", cp] for cp in (0xE9, 0x20AC, 0x1F600)] + [["db", 0xA4, 0xA2], ["u8x", "\xc0\x80"], ["u8x", "\xbf"]]
+    inner += [["raw", chr(c)] for c in _C0 if c != ESC] + [["alt", c] for c in range(32, 127)]
+    for enc in ENCODINGS:
+        mode = {"utf-8": "utf8", "euc-jp": "wide", "iso8859-1": "narrow"}[enc]
+        for it in inner:
+            n = len(build_item(it, mode).data) + 1
+            yield {"enc": enc, "items": [["meta", it], ["raw", "z"]],
+                   "frags": [[[1, 0]], [[1, 2]], [[1, 1]], [[2, 0], [n - 1, 2]]]}
+            yield {"enc": enc, "items": [["meta", ["meta", it]]], "frags": [[[1, 0], [2, 0]], [[2, 3]]]}
 
 
 def mouse_sgr_cases():
@@ -1069,6 +1160,8 @@ def shard(ctx):
         ("independently written xterm forms (CSI 1;m X, CSI n;m ~, SS3 X, SS3 m X; m 2..8) x 3 encodings x every single cut", xterm_cases()),
         ("X10 mouse: every value of each of the three bytes x every single cut", x10_cases()),
         ("SGR mouse: every button code 0..127 x M/m", mouse_sgr_cases()),
+        ("ESC and ESC ESC before every input_sequences entry / xterm form / mouse report per modifier set / CPR / "
+         "character class / C0 byte x 3 encodings", esc_prefix_cases()),
         ("every UTF-8-shaped sequence (lead 0xC0-0xF7 x every second byte x extreme later bytes), character or not", utf8_shape_cases()),
         ("every two-byte character of gbk / big5 / uhc / euc-jp (by Python's codecs): whole and split", dbcs_cases()),
     ]
